@@ -24,6 +24,7 @@ KNOWN = VERIF / 'known_findings.json'
 GROUPS = {
     'C01': 'harness.sched', 'C02': 'harness.sched', 'C07': 'harness.sched', 'C08': 'harness.sched',
     'C09': 'harness.sched', 'C10': 'harness.sched',
+    'C11': 'harness.taskmgr', 'C12': 'harness.taskmgr', 'C17': 'harness.filters',
 }
 
 TRUSTED_BASE = [
